@@ -51,10 +51,17 @@ def status():
                    c.get('distinct_nontrivial'), e['wall_s'], ", ".join(a.split('.')[-1] for a in ax) or "none"))
     return "\n".join(out)
 
+def asbuilt():
+    out = []
+    for f in sorted(glob.glob(os.path.join(V, 'design-notes', 'asbuilt', 'C*.md'))):
+        out.append(open(f).read().strip())
+    return "\n\n".join(out)
+
+
 def main():
     p = os.path.join(V, 'DESIGN.md')
     s = open(p).read()
-    for name, fn in (('FINDINGS', findings), ('SEEDS', seeds), ('STATUS', status)):
+    for name, fn in (('FINDINGS', findings), ('SEEDS', seeds), ('STATUS', status), ('ASBUILT', asbuilt)):
         b, e = "<!-- BEGIN %s -->" % name, "<!-- END %s -->" % name
         if b in s and e in s:
             s = s[:s.index(b) + len(b)] + "\n" + fn() + "\n" + s[s.index(e):]
